@@ -282,3 +282,58 @@ func TestVerifC07Replay(t *testing.T) {
 	fail, _ := c07Run(c)
 	vlib.Report(t, "C07", c, fail)
 }
+
+// ---------------------------------------------------------------------------
+// C07 in real page tables: "mapping a physical range through such a
+// reservation maps exactly the pages needed" is also checked where it finally
+// matters - in the tables the MMU walks. The histories are region mappings
+// (plus a few single-page mappings that create and share upper-level tables)
+// run by the C04 machine: real Map on junk-filled frames, software MMU; after
+// every operation the set of translations must be exactly the model's, so a
+// region mapping that leaves any other page mapped is seen.
+
+func TestVerifC07Tables(t *testing.T) {
+	st := vlib.For("C07")
+	defer vlib.Flush()
+	defer vmRestore()
+	rapid.Check(t, func(t *rapid.T) {
+		c := c04Case{Spaces: 1}
+		n := rapid.IntRange(1, 14).Draw(t, "nops")
+		for i := 0; i < n; i++ {
+			op := c04GenOp(t, 1)
+			switch op.Kind {
+			case "mapRegion", "identityMap", "translate", "map", "unmap":
+			default:
+				op = c04Op{Kind: "mapRegion", Frame: uint64(rapid.IntRange(0, 1<<20).Draw(t, "frame")), Flags: c04GenFlags(t),
+					Size: rapid.SampledFrom([]uint64{1, 4096, 4097, 3 * 4096, 5*4096 - 1}).Draw(t, "size")}
+			}
+			c.Ops = append(c.Ops, op)
+		}
+		fail, rs := c04Run(c)
+		regions := 0
+		for _, op := range c.Ops {
+			if op.Kind == "mapRegion" || op.Kind == "identityMap" {
+				regions++
+			}
+		}
+		labels := []string{"real-page-tables"}
+		if rs.refusedRegion {
+			labels = append(labels, "real-page-tables-refused-region")
+		}
+		st.Case(c, regions >= 2, labels...)
+		vlib.Report(t, "C07", c, fail)
+	})
+}
+
+func TestVerifC07TablesReplay(t *testing.T) {
+	var c c04Case
+	ok, err := vlib.LoadReplay(&c)
+	if !ok {
+		t.Skip("no replay requested")
+	}
+	if err != nil {
+		t.Fatalf("VERIF-HARNESS cannot load replay: %v", err)
+	}
+	fail, _ := c04Run(c)
+	vlib.Report(t, "C07", c, fail)
+}
